@@ -229,6 +229,31 @@ P.unit("molli.parsing.mol2:read_mol2", name="mol2: every single-token corruption
        functions=["molli.parsing.mol2:read_mol2", f"{M.CLS['Structure']}.yield_from_mol2"])(unit("mol2", tokens=True))
 
 
+@P.unit(f"{M.CLS['Structure']}.yield_from_mol2", name="undamaged mol2 text: whatever bond type a record carries, the molecule has the bond count its header declares",
+        functions=["molli.parsing.mol2:read_mol2", f"{M.CLS['Structure']}.yield_from_mol2", f"{M.CLS['Structure']}.loads_all_mol2"])
+def _every_bond_record_is_a_bond(V):
+    I, st = V.I, V.st
+    T.use(st)
+    e = ensemble(V)
+    BT = V.cls("molli.chem.bond:BondType")
+    bt = V.choose(["Single", "Double", "Triple", "Aromatic", "Amide", "Dummy", "Unknown", "NotConnected"], "bond-type")
+    e.fields["_bonds"].items[0].fields["btype"] = I.getattr_(BT, bt)
+    V.witness(lambda ev: {"op": "bond-records", "btype": bt, "signature": "bond-records"})
+    V.cover()
+    w = V.method(e, "dumps_mol2", [])
+    V.ensure("records/writer-returns", z3.BoolVal(w.returned))
+    if not w.returned:
+        return
+    try:
+        ms = I.call(I.getattr_(V.cls(MOLQ), "loads_all_mol2"), [w.value], {}).items
+    except PyExc:
+        V.ensure("records/reader-accepts-the-undamaged-text", z3.BoolVal(False))
+        return
+    V.ensure("records/reader-accepts-the-undamaged-text", z3.BoolVal(len(ms) == 2))
+    V.ensure("records/every-molecule-has-the-declared-atom-and-bond-counts",
+             z3.BoolVal(all(len(m_.fields["_atoms"].items) == 2 and len(m_.fields["_bonds"].items) == 1 for m_ in ms)))
+
+
 @P.unit("molli.parsing.mol2:read_mol2", name="mol2 with attribute records (UNITY_ATOM_ATTR / UNITY_BOND_ATTR): every truncation is rejected or complete, and the reader terminates",
         functions=["molli.parsing.mol2:read_mol2", "molli.parsing.mol2:LineReader.__next__", "molli.parsing.mol2:LineReader.next_noexcept"])
 def _mol2_attr(V):
